@@ -377,6 +377,8 @@ impl A2lFile {
         }
         outstr.push_str(&file_text);
 
+        #[cfg(a2lfile_verif)]
+        use crate::verif_hooks::shadow_std as std;
         std::fs::write(&path, outstr).map_err(|ioerror| A2lError::FileWriteError {
             filename: path.as_ref().to_path_buf(),
             ioerror,
